@@ -664,6 +664,41 @@ func c19Async(t *testing.T, o *vOut, rng *mrand.Rand) {
 			wait()
 			o.Line("aretry renew %s => %s", script(k2), c19AsyncTrace(iss2.Calls(), t1))
 			cache2.Stop()
+			// … and an issuer that says "do not retry" (ErrNoRetry) after kn ordinary failures: the
+			// error must arrive at doWithRetry as such THROUGH obtainCert / renewCert (wrapped, not
+			// flattened into text), so the attempts stop there — on both paths
+			kn := k % 3
+			noRetry := func(n int, _ []string) error {
+				switch {
+				case n <= kn:
+					return errors.New("verif: issuer unavailable")
+				case n == kn+1:
+					return ErrNoRetry{Err: errors.New("verif: issuer refuses for good")}
+				}
+				return nil
+			}
+			scriptN := c19Script(c19Fails(kn, 0, 'n'))
+			iss3 := vNewIssuer("i", ca)
+			iss3.Behave = noRetry
+			cache3, cfg3 := vNewCfg(st, []Issuer{iss3}, far)
+			t2 := time.Now()
+			cfg3.RenewCertAsync(ctx, "c19.example", true)
+			o.Line("aretry renew %s => %s", scriptN, c19AsyncTrace(iss3.Calls(), t2))
+			if len(iss3.Calls()) != kn+1 {
+				o.Mon("C19 async-renew retried-after-no-retry", map[string]any{"ordinary_failures": kn, "attempts": len(iss3.Calls())})
+			}
+			cache3.Stop()
+			iss4 := vNewIssuer("i", ca)
+			iss4.Behave = noRetry
+			cache4, cfg4 := vNewCfg(vNewMem(), []Issuer{iss4}, far)
+			t3 := time.Now()
+			cfg4.ObtainCertAsync(ctx, "c19.example")
+			o.Line("aretry obtain %s => %s", scriptN, c19AsyncTrace(iss4.Calls(), t3))
+			if len(iss4.Calls()) != kn+1 {
+				o.Mon("C19 async-obtain retried-after-no-retry", map[string]any{"ordinary_failures": kn, "attempts": len(iss4.Calls())})
+			}
+			cache4.Stop()
+			o.Stat("async_no_retry_paths_checked", 2)
 			o.Stat("traces_validated", 2)
 			o.Stat("async_attempts_checked", len(iss.Calls())+len(iss2.Calls()))
 			if !c19JMIdle() {
